@@ -250,6 +250,11 @@ class ShapesGraph(object):
         subject_of_property = {s for s, o in g.subject_objects(SH_property)}
         subject_of_node = {s for s, o in g.subject_objects(SH_node)}
         subject_shapes = subject_shapes.union(set(subject_of_property).union(set(subject_of_node)))
+        # "s is subject of a triple that has a parameter as predicate": any constraint parameter makes a shape
+        from .constraints import ALL_CONSTRAINT_PARAMETERS
+
+        for _param in ALL_CONSTRAINT_PARAMETERS:
+            subject_shapes.update(_s for _s, _o in g.subject_objects(_param))
         if self.debug:
             self.logger.debug(f"Found {len(subject_shapes)} implied SHACL Shapes based on their properties.")
 
